@@ -292,7 +292,7 @@ def _c15_vm_sample(d, tier, coq, build, want=300):
 
 CONFIG = {
     "properties_file": "Properties/C15.v",
-    "proof_files": ["Base/Prelude.v", "Proofs/Paging.v", "Proofs/PagingUrl.v"],
+    "proof_files": ["Base/Prelude.v", "Proofs/Paging.v", "Proofs/PagingUrl.v", "Proofs/PagingFacts.v"],
     "model_files": ["Generated/GC15.v", "Model/Paging.v", "Model/PagingUrl.v"],
     "extract": "XC15.v",
     "ml_main": "c15_main.ml",
